@@ -381,14 +381,17 @@ theorem feed_resolve (log : List Rec) (o0 first last : Int) (hok : ∀ r ∈ log
     all_goals first | omega | exact Iff.rfl
   exact decide_eq_decide.mpr hiff
 
-/-- before the first successful `initialize` the loop's offset is the one it was started with; afterwards the resolved
-start offset selects the same stored records as that one (for LastOffset, −1, it depends on the broker's answer) -/
-structure SInv (log : List Rec) (o0 : Int) (s : RR) : Prop where
+/-- before the first successful `initialize` the loop's offset is the one it was started with (`o0`); afterwards the
+resolved start offset selects the same stored records as `from` — `o0` itself for an absolute offset or FirstOffset, the
+last offset the broker reports at that moment for LastOffset -/
+structure SInv (log : List Rec) (o0 : Int) («from» : Int) (s : RR) : Prop where
   unset : s.start = none → s.offset = o0
-  set : ∀ st, s.start = some st → o0 ≠ -1 → feed log st = feed log o0
+  set : ∀ st, s.start = some st → feed log st = feed log «from»
 
-theorem sinv_step (cfg : RCfg) {log : List Rec} {o0 : Int} {s : RR} (e : REv) (hi : RInv log s) (h : SInv log o0 s)
-    (hg : Good log s e) : SInv log o0 (rstep cfg s e) := by
+theorem sinv_step (cfg : RCfg) {log : List Rec} {o0 fr : Int} {s : RR} (e : REv) (hi : RInv log s) (h : SInv log o0 fr s)
+    (hg : Good log s e)
+    (hres : ∀ f l, e = .initOk f l → s.start = none → Good log s e → feed log (resolve o0 f l) = feed log fr) :
+    SInv log o0 fr (rstep cfg s e) := by
   have hnr : s.start = none → s.phase ≠ .reading := fun hs hr => (hi.conn hr).1 hs
   constructor
   · intro hs'
@@ -398,23 +401,29 @@ theorem sinv_step (cfg : RCfg) {log : List Rec} {o0 : Int} {s : RR} (e : REv) (h
       · rw [h3]; exact h.unset hs
       · exact absurd hs' h3
     · rw [h2] at hs'; cases hs'
-  · intro st hs' hne
+  · intro st hs'
     rcases rstep_start cfg s e with h1 | ⟨hs, f, l, he, h2⟩
-    · exact h.set st (by rw [← h1]; exact hs') hne
+    · exact h.set st (by rw [← h1]; exact hs')
     · rw [h2] at hs'
       cases hs'
-      subst he
-      simp only [Good] at hg
       rw [h.unset hs]
-      exact feed_resolve log o0 f l hg.2.2 hg.1 hne
+      exact hres f l he hs hg
 
 end KV.C02
 
 namespace KV.C02
 
-theorem winv_run (cfg : RCfg) (items : List Item) (nb : Int) (hnb : 0 ≤ nb) (hwf : LWF nb items) (o0 : Int) :
-    ∀ (xs : List Env) (s : RR), RInv (allRecords items) s → SInv (allRecords items) o0 s → (∀ x ∈ xs, x.ok items) →
-      RInv (allRecords items) (worldRun cfg items s xs) ∧ SInv (allRecords items) o0 (worldRun cfg items s xs) := by
+/-- for an absolute start offset or FirstOffset the resolution does not change which records are selected -/
+theorem sinv_res_abs {log : List Rec} {s : RR} {o0 : Int} (hne : o0 ≠ -1) :
+    ∀ (e : REv) f l, e = .initOk f l → s.start = none → Good log s e → feed log (resolve o0 f l) = feed log o0 := by
+  intro e f l he _ hg
+  subst he
+  simp only [Good] at hg
+  exact feed_resolve log o0 f l hg.2.2 hg.1 hne
+
+theorem winv_run (cfg : RCfg) (items : List Item) (nb : Int) (hnb : 0 ≤ nb) (hwf : LWF nb items) (o0 : Int) (hne : o0 ≠ -1) :
+    ∀ (xs : List Env) (s : RR), RInv (allRecords items) s → SInv (allRecords items) o0 o0 s → (∀ x ∈ xs, x.ok items) →
+      RInv (allRecords items) (worldRun cfg items s xs) ∧ SInv (allRecords items) o0 o0 (worldRun cfg items s xs) := by
   intro xs
   induction xs with
   | nil => intro s h1 h2 _; exact ⟨h1, h2⟩
@@ -423,19 +432,19 @@ theorem winv_run (cfg : RCfg) (items : List Item) (nb : Int) (hnb : 0 ≤ nb) (h
     have hxo := hx x (by simp)
     refine ih _ (rinv_world_step cfg items nb hnb hwf h1 x hxo) ?_ (fun y hy => hx y (by simp [hy]))
     rcases world_good cfg items nb hnb hwf h1 x hxo with hg | he
-    · exact sinv_step cfg _ h1 h2 hg
+    · exact sinv_step cfg _ h1 h2 hg (sinv_res_abs hne _)
     · rw [he]; exact h2
 
 /-- the loop started at `o0` (an absolute offset or FirstOffset) pushes an initial segment of `feed log o0` -/
 theorem world_msgs_prefix (cfg : RCfg) (items : List Item) (nb : Int) (hnb : 0 ≤ nb) (hwf : LWF nb items) (o0 : Int)
     (ho : -2 ≤ o0) (hne : o0 ≠ -1) (xs : List Env) (hx : ∀ x ∈ xs, x.ok items) :
     (worldRun cfg items { offset := o0 } xs).msgs <+: feed (allRecords items) o0 := by
-  obtain ⟨h1, h2⟩ := winv_run cfg items nb hnb hwf o0 xs { offset := o0 } (rinv_init _ o0 ho)
+  obtain ⟨h1, h2⟩ := winv_run cfg items nb hnb hwf o0 hne xs { offset := o0 } (rinv_init _ o0 ho)
     ⟨fun _ => rfl, fun st hs => by cases hs⟩ hx
   cases hs : (worldRun cfg items { offset := o0 } xs).start with
   | none => rw [(h1.nostart hs).1]; exact List.nil_prefix
   | some st =>
-    rw [← h2.set st hs hne]
+    rw [← h2.set st hs]
     exact loop_msgs_prefix (allRecords_sorted items nb hnb hwf) h1 st hs
 
 end KV.C02
